@@ -13,7 +13,7 @@ package criteria_splitting
 //@   panics_iff [ratio_or_bounds] !(0.0 <= c.Ratio && c.Ratio <= 1.0) || c.Max < c.Min
 
 //@ func (*CriteriaSplitCondition).SplitCriteriaByOrdering
-//@   property C15 C16
+//@   property C15 C16 C20
 //@   panics_iff [pivot_out_of_range] pivot(len(*sortedCriteria), *c) < 0 || pivot(len(*sortedCriteria), *c) > len(*sortedCriteria)
 //@   ensures [left]  fresh(result) && *result.Left == (*sortedCriteria)[0:pivot(len(*sortedCriteria), *c)]
 //@   ensures [right] *result.Right == (*sortedCriteria)[pivot(len(*sortedCriteria), *c):]
